@@ -320,6 +320,65 @@ func c06(c *Ctx) (*report.Result, error) {
 				}
 			}
 		}
+		// ... and that context descends from the initiator's stream context without a cut: the initiator going away
+		// (its context is cancelled) must release a relay that is blocked in Send/Recv on the source side
+		if wc != nil {
+			chain := []string{}
+			cur := ssa.Value(wc.Call.Args[0])
+			verdict := "?"
+			for i := 0; i < 10 && cur != nil; i++ {
+				cur = flow.Strip(flow.ResolveLoad(cur))
+				switch x := cur.(type) {
+				case *ssa.Extract:
+					cur = x.Tuple
+					continue
+				case *ssa.Call:
+					if x.Call.IsInvoke() && x.Call.Method.Name() == "Context" {
+						if _, fld, okf := flow.FieldLoadOf(flow.ResolveLoad(x.Call.Value)); okf && fld == "targetStreamServer" {
+							verdict = "ok"
+						} else {
+							verdict = "the context of something other than the initiator's stream"
+						}
+						cur = nil
+						continue
+					}
+					cal := flow.StaticCallee(&x.Call)
+					if cal == nil || len(x.Call.Args) == 0 {
+						verdict = "an unresolved call " + flow.CalleeName(&x.Call)
+						cur = nil
+						continue
+					}
+					name := cal.String()
+					chain = append(chain, name)
+					switch name {
+					case "context.WithoutCancel", "context.Background", "context.TODO":
+						verdict = name + " cuts the cancellation chain"
+						cur = nil
+					case "context.WithCancel", "context.WithValue", "context.WithTimeout", "context.WithDeadline", "context.WithCancelCause",
+						"google.golang.org/grpc/metadata.NewOutgoingContext", "google.golang.org/grpc/metadata.AppendToOutgoingContext":
+						cur = x.Call.Args[0]
+					default:
+						if cal.Package() != nil && strings.HasPrefix(cal.Package().Pkg.Path(), modPath) && len(x.Call.Args) > 0 {
+							verdict = "a module helper " + name + " (not followed)"
+						} else {
+							verdict = "an unreviewed context constructor " + name
+						}
+						cur = nil
+					}
+					continue
+				}
+				verdict = "an unrecognised origin " + flow.Describe(cur)
+				cur = nil
+			}
+			switch {
+			case verdict == "ok":
+				res.Hold("O6.2", "Run: the source stream's context descends from the initiator's stream context", instrPos(c.Prog, wc), strings.Join(chain, " <- "))
+			case strings.Contains(verdict, "cuts the cancellation chain") || strings.Contains(verdict, "other than the initiator"):
+				res.Viol("O6.2", "Run: the source stream's context descends from the initiator's stream context", instrPos(c.Prog, wc), verdict+": when the initiator goes away while forwardAcks is blocked in Send towards a source that is not reading (or forwardReplicationMessages idles in Recv), nothing cancels the source stream, the latch is never tripped and Run never returns")
+			default:
+				res.Undec("O6.2", "Run: the source stream's context descends from the initiator's stream context", instrPos(c.Prog, wc), verdict)
+			}
+		}
 		res.Check(ok, "O6.2", "Run: outgoing context cancelled on every exit and used for the source stream", fnPos(c.Prog, f), "ctx, cancel := WithCancel(..); defer cancel(); adminClient.Stream..(ctx)", why+": a listener blocked in Recv on the source side could never be released")
 		// both relays started, latch created before
 		gos := 0
